@@ -201,11 +201,11 @@ CLAIMS = {
              "Arc<Mutex<BarState>> these harnesses do not finish within an hour: tier `deep`); rayon adaptors are outside the claim (worker threads: not modelled by Kani).",
         ref="4/C17"),
     "C18": dict(
-        technique="MIR panic-site scan with SMT path feasibility (z3 + cvc5) for the unwrap sites; fault injection by " + K,
+        technique="MIR panic-site scan with SMT path feasibility (z3 + cvc5) for the unwrap sites, MIR reachability rule for early error returns after membership changes of a MultiState (native failing-terminal scenarios as replay); fault injection by " + K,
         engine="mirsmt",
         text="Engine M shows for EVERY function of the library that no Result<(), io::Error> (the type of every draw / clear / terminal operation) is consumed "
              "by unwrap / expect or by a match whose Err arm panics, on any feasible path: a failing terminal cannot panic under the bar mutex or the MultiProgress "
-             "lock (no poisoning). Kani injects a failure into terminal call k in 0..=15 (once or sticky) of one real draw_to_term (Err returned iff reached, "
+             "lock (no poisoning), and (E1) that no &mut MultiState method can return an I/O error early after it has changed members / ordering / free_set. Kani injects a failure into terminal call k in 0..=15 (once or sticky) of one real draw_to_term (Err returned iff reached, "
              "last_line_count untouched, no panic) and into the first draw of tick / set_length / set_tab_width / println / finish / "
              "finish_and_clear / reset / forced draw on a BarState with pos/len over u64: no panic, logical state as without the failure, the next call paints; and "
              "after a failed draw (last_line_count lagging behind the members' frames, any value) reaping a finished head bar does not panic (saturating row arithmetic).",
